@@ -967,7 +967,8 @@ def entry_cases(rep, rng, quick):
     v4 = {"k": "vec", "n": 4, "s": "f32"}
     f1 = {"k": "scalar", "s": "f32"}
     for i, results in enumerate([[{"k": "loc", "n": 0, "ty": v4}, {"k": "loc", "n": 2, "ty": v4}, {"k": "loc", "n": 1, "ty": v4}], [{"k": "loc", "n": 3, "ty": v4}, {"k": "loc", "n": 0, "ty": v4}],
-                                 [{"k": "builtin", "b": "frag_depth"}, {"k": "loc", "n": 0, "ty": f1}, {"k": "loc", "n": 4, "ty": f1}], [{"k": "loc", "n": 1, "ty": f1}, {"k": "builtin", "b": "frag_depth"}, None]]):
+                                 [{"k": "builtin", "b": "frag_depth"}, {"k": "loc", "n": 0, "ty": f1}, {"k": "loc", "n": 4, "ty": f1}], [{"k": "loc", "n": 1, "ty": f1}, {"k": "builtin", "b": "frag_depth"}, None],
+                                 [{"k": "loc", "n": 8, "ty": v4}, {"k": "loc", "n": 7, "ty": v4}], [{"k": "loc", "n": 11, "ty": f1}, {"k": "loc", "n": 15, "ty": v4}, {"k": "loc", "n": 31, "ty": v4}]]):
         ents = []
         for j, r_ in enumerate(results):
             e = {"name": "fs_%d" % j, "stage": "fragment", "params": [], "body": [], "wg": []}
@@ -1066,9 +1067,12 @@ def check_C16(tier, seed):
         text = (a * b)[: b * len(a)]
         cases.append({"id": "src-long-%d" % i, "family": "source-long", "S": F.source_shader(text), "opts": F.opts(rustfmt=(i % 2 == 1))})
     for i, pth in enumerate([" shader.wgsl", "shader.wgsl ", "shader.wgsl\n", "\tshader.wgsl", "\u3000shader.wgsl", "\u00a0x.wgsl\u00a0", " ", "./a/../shader.wgsl", "shader.wgsl\r\n", "", "0", "None",
+                              "\\\\?\\C:\\shaders\\a.wgsl", "\\\\?\\UNC\\srv\\a.wgsl", "\\\\.\\a.wgsl", "C:\\a.wgsl", "file:///a.wgsl", "~/a.wgsl", "$OUT_DIR/a.wgsl", "%TEMP%\\a.wgsl",
                               "shaders//shader.wgsl", "a/./b.wgsl", "dir/", "dir/.", "/abs//x.wgsl", "a\\b\\c.wgsl", "..\\up.wgsl", "a/b/../../c.wgsl"]):
         cases.append({"id": "src-path-%d" % i, "family": "source-include-paths", "S": F.source_shader("p"), "opts": F.opts(include=pth)})
         cases.append({"id": "src-path-%d-emb" % i, "family": "source-include-paths", "S": F.source_shader("p"), "opts": F.opts()})
+    for i, pre in enumerate(["\ufeff", "\ufeff\ufeff", "\u200b", "\u2060", "\ufffe", "\x00", "\ufeff\n"]):
+        cases.append({"id": "src-bom-%d" % i, "family": "source-invisible-prefix", "wgsl": pre + "@fragment fn fs_main() {}\n", "opts": F.opts()})
     # text that tempts a raw-string spelling of the literal: quotes next to hash signs, runs of hashes, a raw-string look-alike
     for i, text in enumerate(['"#', '"##', 'a "#define" b', 'r#"x"#', '"#"##"###', '#"', '\\"#', '"#\n"##\n', '###"###', 'say "hi" # then "##" and \\ back']):
         for fmt in (False, True):
